@@ -80,6 +80,11 @@ func stateEnumBodyClose(s *Scanner, c byte) *jerr.JApiError {
 		s.foundAt(s.curIndex-1, EnumEnd)
 		s.step = stateExpectKeyword
 		return nil
+	case CommentSign: // a comment directly after the closing bracket, as after every other body
+		s.foundAt(s.curIndex-1, EnumEnd)
+		s.stepStack.Push(stateEnumBodyEnded)
+		s.step = stateCommentStarted
+		return nil
 	default:
 		return s.japiErrorUnexpectedChar("after enum", "")
 	}
